@@ -160,3 +160,470 @@ Example gating_example :
   lookup "LT" (crack_dict ["LL"]%string 0%Z 1%Z 2%Z 3%Z 4%Z) = Some 2%Z /\
   valid_to_compute ["LL"; "XX"]%string = false.
 Proof. repeat split. Qed.
+
+(* ============================================================================================== *)
+(* The glue around the scalar functions (Model/ScatGlue.v, Proofs/ScatGlueProofs.v):               *)
+(* the calls on ARRAYS of any broadcastable shapes, their error branches and the precedence of the *)
+(* errors, the wrappers of the Scattering2d interface, the scattering matrices, the flag of        *)
+(* CrackCentreScat over histories of calls, the number of modal terms.                             *)
+(* An array is a shape with a function of the multi-index; `nd_read a idx` is the element of `a`    *)
+(* that numpy's broadcasting reads when the result is read at `idx`.                               *)
+(* Oracles: hankel1 hankel2 : Z -> T -> cx (order, argument), ARBITRARY; the crack kernels at each  *)
+(* frequency (arbitrary functions, instantiated with crack_LL .. crack_TT where stated).            *)
+(* ============================================================================================== *)
+From Arim Require Import Model.ScatMatrix Model.ScatGlue Proofs.ScatGlueProofs.
+From Flocq Require Import Core.Raux.
+
+(* ---- numpy broadcasting (axiom-free) ---- *)
+Theorem broadcast_shape_rules : forall a b : list nat,
+  bshape a b = bshape b a /\
+  (forall s, bshape a b = Some s -> List.length s = Nat.max (List.length a) (List.length b)) /\
+  bshape a a = Some a /\ bshape a [] = Some a /\ bshape [] a = Some a.
+Proof.
+  intros a b. split; [apply bshape_comm|]. split; [apply bshape_length|].
+  split; [apply bshape_same|]. split; [apply bshape_nil_r | apply bshape_nil_l].
+Qed.
+
+(* ---- sdh_2d_scat on arrays: for EVERY numeric instance (reals, floats, ...), every pair of shapes ---- *)
+
+(* entry by entry the array call is the scalar function of Model/Scat.v at the pair of angles that
+   broadcasting reads at that entry; the result has the broadcast shape *)
+Theorem sdh_array_entrywise : forall (T : Type) (N : Num T) hankel1 hankel2 (inc out : nd T) f r vL vT mt tf tc D k arr,
+  sdh_2d_scat_nd N hankel1 hankel2 inc out f r vL vT mt tf tc = inr D ->
+  lookup k D = Some arr ->
+  bshape (nd_shape out) (nd_shape inc) = Some (nd_shape arr) /\
+  forall idx, nd_at arr idx = sdh_pick N hankel1 hankel2 f r vL vT mt tf k (nd_read inc idx) (nd_read out idx).
+Proof. intros T N hankel1 hankel2 inc out f r vL vT mt tf. exact (sdh_nd_entry N hankel1 hankel2 inc out f r vL vT mt tf). Qed.
+
+(* which error, in which order (shapes, then to_compute, then the empty modal range), and the keys of
+   a successful result: exactly the requested ones among LL, LT, TL, TT *)
+Theorem sdh_array_outcome : forall (T : Type) (N : Num T) hankel1 hankel2 (inc out : nd T) f r vL vT mt tf tc,
+  match sdh_2d_scat_nd N hankel1 hankel2 inc out f r vL vT mt tf tc with
+  | inl EBroadcast => bshape (nd_shape out) (nd_shape inc) = None
+  | inl EToCompute => bshape (nd_shape out) (nd_shape inc) <> None /\ valid_to_compute tc = false
+  | inl EEmptyModes => bshape (nd_shape out) (nd_shape inc) <> None /\ valid_to_compute tc = true /\
+                       (sdh_maxn N f r vL vT mt tf < 0)%Z
+  | inl _ => False
+  | inr D => bshape (nd_shape out) (nd_shape inc) <> None /\ valid_to_compute tc = true /\
+             (0 <= sdh_maxn N f r vL vT mt tf)%Z /\
+             forall k, lookup k D <> None <-> (valid_key k = true /\ requested tc k = true)
+  end.
+Proof. intros T N hankel1 hankel2 inc out f r vL vT mt tf. exact (sdh_nd_outcome N hankel1 hankel2 inc out f r vL vT mt tf). Qed.
+
+(* the array model and the scalar model of the existing theorems agree entry by entry *)
+Theorem sdh_array_agrees_with_scalar_model : forall (T : Type) (N : Num T) hankel1 hankel2 (inc out : nd T) f r vL vT mt tf tc D k arr idx,
+  sdh_2d_scat_nd N hankel1 hankel2 inc out f r vL vT mt tf tc = inr D ->
+  lookup k D = Some arr ->
+  exists d,
+    sdh_2d_scat N (fun n => hankel1 n (sdh_alpha N f r vL)) (fun n => hankel2 n (sdh_alpha N f r vL))
+                  (fun n => hankel1 n (sdh_beta N f r vT)) (fun n => hankel2 n (sdh_beta N f r vT))
+                  f r vL vT mt tf tc (nd_read inc idx) (nd_read out idx) = Some d /\
+    lookup k d = Some (nd_at arr idx).
+Proof. intros T N. exact (sdh_nd_vs_scalar N). Qed.
+
+(* the angles enter only through out - inc as the numeric instance computes it (bit for bit in floats):
+   entries with the same difference — in one call or in two calls with arrays of different shapes,
+   orders, sizes, and different requested keys — carry the same value; an entry does not depend on the
+   other entries of the call (what a block-wise evaluation must preserve) *)
+Theorem sdh_array_only_difference : forall (T : Type) (N : Num T) hankel1 hankel2
+    (inc1 out1 inc2 out2 : nd T) f r vL vT mt tf tc1 tc2 D1 D2 k arr1 arr2 idx1 idx2,
+  sdh_2d_scat_nd N hankel1 hankel2 inc1 out1 f r vL vT mt tf tc1 = inr D1 ->
+  sdh_2d_scat_nd N hankel1 hankel2 inc2 out2 f r vL vT mt tf tc2 = inr D2 ->
+  lookup k D1 = Some arr1 -> lookup k D2 = Some arr2 ->
+  nsub N (nd_read out1 idx1) (nd_read inc1 idx1) = nsub N (nd_read out2 idx2) (nd_read inc2 idx2) ->
+  nd_at arr1 idx1 = nd_at arr2 idx2.
+Proof. intros T N. exact (sdh_nd_only_difference N). Qed.
+
+(* reciprocity of the ARRAYS: the call with the two angle arrays exchanged (any two shapes that
+   broadcast: scalar / vector, row / column, ...) *)
+Theorem sdh_array_exchange : forall hankel1 hankel2 f r vL vT mt tf (inc out : nd R) tc tc' D D',
+  sdh_2d_scat_nd NumR hankel1 hankel2 inc out f r vL vT mt tf tc = inr D ->
+  sdh_2d_scat_nd NumR hankel1 hankel2 out inc f r vL vT mt tf tc' = inr D' ->
+  (forall k A A', (k = "LL" \/ k = "TT")%string -> lookup k D = Some A -> lookup k D' = Some A' ->
+     nd_shape A = nd_shape A' /\ forall idx, nd_at A idx = nd_at A' idx) /\
+  (forall A A', lookup "LT" D = Some A -> lookup "TL" D' = Some A' ->
+     vL <> 0 -> vT <> 0 -> f <> 0 -> r <> 0 ->
+     nd_shape A = nd_shape A' /\
+     forall idx, rscale NumR (vT * vT) (nd_at A idx) = copp NumR (rscale NumR (vL * vL) (nd_at A' idx))).
+Proof. exact sdh_nd_exchange. Qed.
+
+(* parity: S_LL, S_TT are unchanged and S_LT, S_TL change sign when both angles change sign *)
+Theorem sdh_parity : forall hankel1 hankel2 f r vL vT mt tf a b,
+  let S := sdh_pick NumR hankel1 hankel2 f r vL vT mt tf in
+  S "LL"%string (- a) (- b) = S "LL"%string a b /\ S "TT"%string (- a) (- b) = S "TT"%string a b /\
+  S "LT"%string (- a) (- b) = rscale NumR (-1) (S "LT"%string a b) /\
+  S "TL"%string (- a) (- b) = rscale NumR (-1) (S "TL"%string a b).
+Proof. intros hankel1 hankel2 f r vL vT mt tf a b. exact (spick_parity hankel1 hankel2 f r vL vT mt tf a b). Qed.
+
+(* integer-typed angles (int64 arrays, the Python int 0): out - inc is an integer subtraction, the
+   phase is the one of the angles converted to float *)
+Theorem sdh_integer_angles : forall inc out : ang (T:=R),
+  sdh_phi_typed NumR inc out = sdh_phi NumR (ang_float NumR inc) (ang_float NumR out).
+Proof. exact sdh_phi_typed_R. Qed.
+
+(* ---- PointSourceScat on arrays: no validation of to_compute; constant arrays of the broadcast shape ---- *)
+Theorem point_array_outcome : forall (T : Type) (N : Num T) vL vT (inc out : nd T) tc,
+  match point_scat_nd N vL vT inc out tc with
+  | inl e => e = EBroadcast /\ bshape (nd_shape inc) (nd_shape out) = None
+  | inr D => exists s, bshape (nd_shape inc) (nd_shape out) = Some s /\
+      forall k, match lookup k D with
+                | Some arr => valid_key k = true /\ requested tc k = true /\ nd_shape arr = s /\
+                              forall idx, nd_at arr idx
+                                = pick k (point_LL N (nd_read inc idx) (nd_read out idx))
+                                         (point_LT N vL vT (nd_read inc idx) (nd_read out idx))
+                                         (point_TL N vL vT (nd_read inc idx) (nd_read out idx))
+                                         (point_TT N (nd_read inc idx) (nd_read out idx))
+                | None => valid_key k = false \/ requested tc k = false
+                end
+  end.
+Proof. intros T N. exact (point_nd_outcome N). Qed.
+
+(* ---- crack_2d_scat on arrays ---- *)
+
+(* all four keys, broadcast shape; a key whose incident mode is used carries the kernel at the pair of
+   angles of the entry (general driver) or at the incident angle of the FIRST ROW of the column
+   (optimised driver); the other keys are zero *)
+Theorem crack_array_entrywise : forall (T : Type) (N : Num T) K (inc out : nd T) safe tc D,
+  crack_2d_scat_nd N K inc out safe tc = inr D ->
+  exists fs, bshape (nd_shape inc) (nd_shape out) = Some fs /\ (List.length fs <= 2)%nat /\
+    valid_to_compute tc = true /\
+    forall k, valid_key k = true ->
+      exists arr, lookup k D = Some arr /\ nd_shape arr = fs /\
+        forall idx, in_shape idx fs ->
+          nd_at arr idx = if crack_use k tc
+                          then kern_pick K k (nd_read inc (if safe then row0 idx else idx)) (nd_read out idx)
+                          else c0 N.
+Proof. intros T N. exact (crack_nd_entry N). Qed.
+
+(* ValueError (to_compute) before ValueError (shapes) before NotImplementedError (> 2 dimensions) *)
+Theorem crack_array_outcome : forall (T : Type) (N : Num T) K (inc out : nd T) safe tc,
+  match crack_2d_scat_nd N K inc out safe tc with
+  | inl EToCompute => valid_to_compute tc = false
+  | inl EBroadcast => valid_to_compute tc = true /\ bshape (nd_shape inc) (nd_shape out) = None
+  | inl ENotImplemented => valid_to_compute tc = true /\
+      exists fs, bshape (nd_shape inc) (nd_shape out) = Some fs /\ (2 < List.length fs)%nat
+  | inl _ => False
+  | inr _ => valid_to_compute tc = true /\
+      exists fs, bshape (nd_shape inc) (nd_shape out) = Some fs /\ (List.length fs <= 2)%nat
+  end.
+Proof. intros T N. exact (crack_nd_outcome N). Qed.
+
+(* optimised = general for scalars and vectors (always) and for matrices with column-constant
+   incident angles (the documented precondition), key by key, entry by entry *)
+Theorem crack_array_drivers_agree : forall (T : Type) (N : Num T) K (inc out : nd T) tc D D',
+  crack_2d_scat_nd N K inc out true tc = inr D ->
+  crack_2d_scat_nd N K inc out false tc = inr D' ->
+  forall fs, bshape (nd_shape inc) (nd_shape out) = Some fs ->
+  ((List.length fs < 2)%nat \/
+   (forall j i, in_shape [j; i] fs -> nd_read inc [0%nat; i] = nd_read inc [j; i])) ->
+  forall k A A', valid_key k = true -> lookup k D = Some A -> lookup k D' = Some A' ->
+    nd_shape A = nd_shape A' /\ forall idx, in_shape idx fs -> nd_at A idx = nd_at A' idx.
+Proof. intros T N. exact (crack_nd_drivers_agree N). Qed.
+
+(* ---- the wrappers of the Scattering2d interface ---- *)
+
+(* binding of `frequency` by the functions of as_angles_funcs / as_freq_angles_funcs *)
+Theorem partial_func_binding : forall (T V : Type) (self : scat_obj T V) k inc out f g,
+  partial_one_scat_key self k (Some f) (Args2 inc out None) = getitem (self inc out f [k]) k /\
+  partial_one_scat_key self k (Some f) (Args2 inc out (Some g)) = getitem (self inc out g [k]) k /\
+  partial_one_scat_key self k None (Args3 inc out f None) = getitem (self inc out f [k]) k /\
+  partial_one_scat_key self k None (Args2 inc out (Some f)) = getitem (self inc out f [k]) k /\
+  partial_one_scat_key self k None (Args2 inc out None) = inl ETypeError /\
+  (forall kw, partial_one_scat_key self k (Some f) (Args3 inc out g kw) = inl ETypeError) /\
+  (forall b, partial_one_scat_key self k b (Args3 inc out f (Some g)) = inl ETypeError).
+Proof. intros T V. exact partial_binding. Qed.
+
+(* each of the four functions closes over ITS OWN key *)
+Theorem funcs_are_closures : forall (T V : Type) (self : scat_obj T V) f k,
+  lookup k (as_angles_funcs self f)
+    = (if valid_key k then Some (partial_one_scat_key self k (Some f)) else None) /\
+  lookup k (as_freq_angles_funcs self)
+    = (if valid_key k then Some (partial_one_scat_key self k None) else None).
+Proof. intros T V. exact funcs_lookup. Qed.
+
+(* subset = full at the level of the arrays, for the three objects (the crack with either driver):
+   identical arrays, identical errors *)
+Theorem subset_eq_full_arrays : forall (T : Type) (N : Num T) hankel1 hankel2 kw vL vT K flag,
+  subset_ok (sdh_obj_call N hankel1 hankel2 kw) /\ subset_ok (point_obj_call N vL vT) /\
+  subset_ok (crack_obj_call N K flag).
+Proof.
+  intros T N hankel1 hankel2 kw vL vT K flag.
+  split; [apply sdh_obj_subset|]. split; [apply point_obj_subset | apply crack_obj_subset].
+Qed.
+
+(* as_angles_funcs(f)[k](inc, out) = as_freq_angles_funcs()[k](inc, out, f) = obj(inc, out, f)[k] *)
+Theorem funcs_eq_call : forall (T V : Type) (self : scat_obj T V), subset_ok self ->
+  forall k inc out f, valid_key k = true ->
+    exists fa ff, lookup k (as_angles_funcs self f) = Some fa /\ lookup k (as_freq_angles_funcs self) = Some ff /\
+      fa (Args2 inc out None) = getitem (self inc out f scat_keys) k /\
+      ff (Args3 inc out f None) = getitem (self inc out f scat_keys) k /\
+      ff (Args2 inc out (Some f)) = getitem (self inc out f scat_keys) k.
+Proof. intros T V. exact ScatGlueProofs.funcs_eq_call. Qed.
+
+(* ---- scattering matrices ---- *)
+
+(* S[j, i] = function(theta_i, theta_j), theta = make_angles(n) *)
+Theorem sdh_matrix_entries : forall (T : Type) (N : Num T) hankel1 hankel2 kw f n tc D k M,
+  as_single_freq_matrices N (sdh_obj_call N hankel1 hankel2 kw) f n tc = inr D ->
+  lookup k D = Some M ->
+  nd_shape M = [n; n] /\
+  forall j i, (j < n)%nat -> (i < n)%nat ->
+    nd_at M [j; i] = sdh_pick N hankel1 hankel2 f (sk_radius kw) (sk_vL kw) (sk_vT kw)
+                       (sk_min_terms kw) (sk_term_factor kw) k
+                       (angle N (npi N) (Z.of_nat n) (Z.of_nat i)) (angle N (npi N) (Z.of_nat n) (Z.of_nat j)).
+Proof. intros T N. exact (sdh_single_entry N). Qed.
+
+Theorem sdh_matrix_outcome : forall (T : Type) (N : Num T) hankel1 hankel2 kw f n tc,
+  match as_single_freq_matrices N (sdh_obj_call N hankel1 hankel2 kw) f n tc with
+  | inl EToCompute => valid_to_compute tc = false
+  | inl EEmptyModes => valid_to_compute tc = true /\ (sdh_obj_maxn N kw f < 0)%Z
+  | inl _ => False
+  | inr D => valid_to_compute tc = true /\ (0 <= sdh_obj_maxn N kw f)%Z /\
+             forall k, lookup k D <> None <-> (valid_key k = true /\ requested tc k = true)
+  end.
+Proof. intros T N. exact (sdh_single_outcome N). Qed.
+
+Theorem sdh_matrix_symmetric : forall hankel1 hankel2 rad vL vT mt tf fq n tc D,
+  as_single_freq_matrices NumR (sdh_obj_call NumR hankel1 hankel2 (mkSdhKw rad vL vT mt tf)) fq n tc = inr D ->
+  forall k M, (k = "LL" \/ k = "TT")%string -> lookup k D = Some M ->
+  forall j i, (j < n)%nat -> (i < n)%nat -> nd_at M [j; i] = nd_at M [i; j].
+Proof. exact ScatGlueProofs.sdh_matrix_symmetric. Qed.
+
+Theorem sdh_matrix_reciprocal : forall hankel1 hankel2 rad vL vT mt tf fq n tc D,
+  as_single_freq_matrices NumR (sdh_obj_call NumR hankel1 hankel2 (mkSdhKw rad vL vT mt tf)) fq n tc = inr D ->
+  forall MLT MTL, lookup "LT" D = Some MLT -> lookup "TL" D = Some MTL ->
+  vL <> 0 -> vT <> 0 -> fq <> 0 -> rad <> 0 ->
+  forall j i, (j < n)%nat -> (i < n)%nat ->
+    rscale NumR (vT * vT) (nd_at MLT [j; i]) = copp NumR (rscale NumR (vL * vL) (nd_at MTL [i; j])).
+Proof. exact ScatGlueProofs.sdh_matrix_reciprocal. Qed.
+
+(* the matrices of the hole are circulant: a cyclic shift of both indices (a rotation of the hole by
+   a whole number of grid steps, rotate_matrix of C10) leaves them unchanged *)
+Theorem sdh_matrix_circulant : forall hankel1 hankel2 kw fq n tc D k M (s : nat),
+  as_single_freq_matrices NumR (sdh_obj_call NumR hankel1 hankel2 kw) fq n tc = inr D ->
+  lookup k D = Some M ->
+  forall j i, (j < n)%nat -> (i < n)%nat ->
+    nd_at M [((j + s) mod n)%nat; ((i + s) mod n)%nat] = nd_at M [j; i].
+Proof. exact ScatGlueProofs.sdh_matrix_circulant. Qed.
+
+(* the crack: whatever the flag (optimised or general driver), S[j, i] = kernel(theta_i, theta_j) —
+   the grid of make_angles_grid satisfies the precondition of the optimised driver *)
+Theorem crack_matrix_entries : forall (T : Type) (N : Num T) K flag f n tc D k,
+  as_single_freq_matrices N (crack_obj_call N K flag) f n tc = inr D -> valid_key k = true ->
+  exists M, lookup k D = Some M /\ nd_shape M = [n; n] /\
+    forall j i, (j < n)%nat -> (i < n)%nat ->
+      nd_at M [j; i] = if crack_use k tc
+                       then kern_pick (K f) k (angle N (npi N) (Z.of_nat n) (Z.of_nat i))
+                                              (angle N (npi N) (Z.of_nat n) (Z.of_nat j))
+                       else c0 N.
+Proof. intros T N. exact (crack_single_entry N). Qed.
+
+Theorem crack_matrix_symmetric : forall (P : R -> crack_params) (ax az : R -> Z -> R * R) fq n tc D flag,
+  exact_solve NumR (cp_nn (P fq)) (galerkin_matrix (Z.of_nat (cp_nn (P fq))) (ax fq)) (cp_solve_x (P fq)) ->
+  exact_solve NumR (cp_nn (P fq)) (galerkin_matrix (Z.of_nat (cp_nn (P fq))) (az fq)) (cp_solve_z (P fq)) ->
+  as_single_freq_matrices NumR (crack_obj_call NumR (fun g => crack_kernels_of NumR (P g)) flag) fq n tc = inr D ->
+  forall k M, (k = "LL" \/ k = "TT")%string -> lookup k D = Some M ->
+  cp_vL (P fq) <> 0 -> cp_vT (P fq) <> 0 ->
+  forall j i, (j < n)%nat -> (i < n)%nat -> nd_at M [j; i] = nd_at M [i; j].
+Proof. intros P ax az fq n tc D flag Hx Hz. exact (ScatGlueProofs.crack_matrix_symmetric P ax az fq n tc D Hx Hz flag). Qed.
+
+(* needs BOTH mode-converted keys requested: an unrequested one may be an array of zeros *)
+Theorem crack_matrix_reciprocal : forall (P : R -> crack_params) (ax az : R -> Z -> R * R) fq n tc D flag,
+  exact_solve NumR (cp_nn (P fq)) (galerkin_matrix (Z.of_nat (cp_nn (P fq))) (ax fq)) (cp_solve_x (P fq)) ->
+  exact_solve NumR (cp_nn (P fq)) (galerkin_matrix (Z.of_nat (cp_nn (P fq))) (az fq)) (cp_solve_z (P fq)) ->
+  as_single_freq_matrices NumR (crack_obj_call NumR (fun g => crack_kernels_of NumR (P g)) flag) fq n tc = inr D ->
+  forall MLT MTL, lookup "LT" D = Some MLT -> lookup "TL" D = Some MTL ->
+  In "LT"%string tc -> In "TL"%string tc ->
+  0 < cp_vL (P fq) -> 0 < cp_vT (P fq) -> 0 < cp_frequency (P fq) ->
+  forall j i, (j < n)%nat -> (i < n)%nat ->
+    rscale NumR (cp_vT (P fq) * cp_vT (P fq)) (nd_at MLT [j; i])
+    = copp NumR (rscale NumR (cp_vL (P fq) * cp_vL (P fq)) (nd_at MTL [i; j])).
+Proof. intros P ax az fq n tc D flag Hx Hz. exact (ScatGlueProofs.crack_matrix_reciprocal P ax az fq n tc D Hx Hz flag). Qed.
+
+(* multi-frequency: S[kf] is the single-frequency result at frequencies[kf]; None for no frequency;
+   the first frequency that raises, or lacks a requested key (KeyError), decides the error *)
+Theorem multi_freq_is_stack : forall (T V : Type) (N : Num T) zero (self : scat_obj T V) fs n tc d,
+  match as_multi_freq_matrices N zero self fs n tc with
+  | inr None => fs = []
+  | inr (Some Om) =>
+      fs <> [] /\
+      forall k, requested tc k = true ->
+        exists A, lookup k Om = Some A /\ nd_shape A = [List.length fs; n; n] /\
+          forall kf, (kf < List.length fs)%nat ->
+            exists D M, as_single_freq_matrices N self (nth kf fs d) n tc = inr D /\
+                        lookup k D = Some M /\ forall idx, nd_at A (kf :: idx) = nd_at M idx
+  | inl e =>
+      exists pre f post, fs = pre ++ f :: post /\
+        (forall g, In g pre -> exists D, as_single_freq_matrices N self g n tc = inr D) /\
+        (as_single_freq_matrices N self f n tc = inl e \/
+         exists D k, as_single_freq_matrices N self f n tc = inr D /\ requested tc k = true /\
+                     lookup k D = None /\ e = EKeyError k)
+  end.
+Proof. intros T V N. exact (as_multi_is_stack_nd N). Qed.
+
+Theorem sdh_multi_freq_entries : forall (T : Type) (N : Num T) hankel1 hankel2 kw fs n tc Om k d,
+  as_multi_freq_matrices N (c0 N) (sdh_obj_call N hankel1 hankel2 kw) fs n tc = inr (Some Om) ->
+  requested tc k = true ->
+  exists A, lookup k Om = Some A /\ nd_shape A = [List.length fs; n; n] /\
+    forall kf j i, (kf < List.length fs)%nat -> (j < n)%nat -> (i < n)%nat ->
+      nd_at A [kf; j; i]
+      = sdh_pick N hankel1 hankel2 (nth kf fs d) (sk_radius kw) (sk_vL kw) (sk_vT kw)
+          (sk_min_terms kw) (sk_term_factor kw) k
+          (angle N (npi N) (Z.of_nat n) (Z.of_nat i)) (angle N (npi N) (Z.of_nat n) (Z.of_nat j)).
+Proof. intros T N. exact (sdh_multi_entry N). Qed.
+
+Theorem crack_multi_freq_entries : forall (T : Type) (N : Num T) (K : T -> crack_kernels) flag fs n tc Om k d,
+  as_multi_freq_matrices N (c0 N) (crack_obj_call N K flag) fs n tc = inr (Some Om) ->
+  requested tc k = true -> valid_key k = true ->
+  exists A, lookup k Om = Some A /\ nd_shape A = [List.length fs; n; n] /\
+    forall kf j i, (kf < List.length fs)%nat -> (j < n)%nat -> (i < n)%nat ->
+      nd_at A [kf; j; i]
+      = kern_pick (K (nth kf fs d)) k (angle N (npi N) (Z.of_nat n) (Z.of_nat i))
+                                      (angle N (npi N) (Z.of_nat n) (Z.of_nat j)).
+Proof. intros T N. exact (crack_multi_entry N). Qed.
+
+(* ---- the flag _in_matrix_calculation of CrackCentreScat over histories of calls ---- *)
+
+Theorem crack_flag_after_step : forall (T : Type) (N : Num T) K flag op,
+  snd (crack_step N K flag op)
+  = match op with
+    | OpCall _ _ _ _ => flag
+    | _ => negb (res_ok (fst (crack_step N K flag op)))
+    end.
+Proof. intros T N. exact (crack_step_flag N). Qed.
+
+(* after any history, from a fresh object, in which no matrix request raised, the flag is False and the
+   next operation answers what it answers on a fresh object *)
+Theorem crack_history_independent : forall (T : Type) (N : Num T) K ops op,
+  clean_history N K false ops ->
+  snd (crack_run N K false ops) = false /\
+  crack_step N K (snd (crack_run N K false ops)) op = crack_step N K crack_init_flag op.
+Proof.
+  intros T N K ops op H. split; [apply crack_flag_restored; exact H | apply ScatGlueProofs.crack_history_independent; exact H].
+Qed.
+
+(* FINDING.  The full statement "a plain call answers the same after ANY history" is FALSE of the
+   code: _scat_matrix_calculation has no try/finally, a matrix request that raises leaves the flag
+   True, and the next plain call is evaluated by the optimised driver (first-row incident angles).
+   Replayed on the library: see .work/prover_C09_TIE.md. *)
+Theorem crack_flag_stuck_after_error : forall (T : Type) (N : Num T) K f n inc out g tc,
+  crack_run N K false [OpSingle f n ["XX"%string]; OpCall inc out g tc]
+  = ([RDict (inl EToCompute); RDict (crack_2d_scat_nd N (K g) inc out true tc)], true) /\
+  crack_step N K false (OpMulti [f] n ["XX"%string]) = (RMulti (inl EToCompute), true).
+Proof. intros T N K f n inc out g tc. split; [apply crack_flag_stuck | apply crack_flag_stuck_multi]. Qed.
+
+Theorem crack_history_independence_refuted :
+  exists (K : R -> crack_kernels (T:=R)) (inc out : nd R) (D D' : dict (nd (R * R))) (A A' : nd (R * R)),
+    snd (crack_run NumR K false [OpSingle 1 4%nat ["XX"%string]]) = true /\
+    crack_obj_call NumR K true inc out 1 scat_keys = inr D /\
+    crack_obj_call NumR K crack_init_flag inc out 1 scat_keys = inr D' /\
+    lookup "LL" D = Some A /\ lookup "LL" D' = Some A' /\ nd_at A [1; 0]%nat <> nd_at A' [1; 0]%nat.
+Proof. exact crack_stuck_flag_changes_answer. Qed.
+
+(* ---- mirror symmetry of the crack (exact solver, mesh symmetric about the centre) ---- *)
+Theorem crack_mirror_symmetry : forall (p : crack_params) (ax az : Z -> R * R),
+  exact_solve NumR (cp_nn p) (galerkin_matrix (Z.of_nat (cp_nn p)) ax) (cp_solve_x p) ->
+  exact_solve NumR (cp_nn p) (galerkin_matrix (Z.of_nat (cp_nn p)) az) (cp_solve_z p) ->
+  (forall m : Z, cp_x p (Z.of_nat (cp_nn p) - 1 - m)%Z = - cp_x p m) ->
+  forall a b, cp_vL p <> 0 -> cp_vT p <> 0 ->
+    crack_LL NumR p (- a) (- b) = crack_LL NumR p a b /\
+    crack_TT NumR p (- a) (- b) = crack_TT NumR p a b /\
+    crack_LT NumR p (- a) (- b) = rscale NumR (-1) (crack_LT NumR p a b) /\
+    crack_TL NumR p (- a) (- b) = rscale NumR (-1) (crack_TL NumR p a b).
+Proof. exact crack_mirror. Qed.
+
+(* the mesh hypothesis holds for the mesh that crack_2d_scat builds *)
+Theorem crack_mesh_symmetric : forall L (nn m : Z), IZR nn + 2 * magic_p NumR <> 0 ->
+  crack_x_nodes NumR L nn (nn - 1 - m) = - crack_x_nodes NumR L nn m.
+Proof. exact crack_x_nodes_symmetric. Qed.
+
+(* ---- the number of modal terms of the hole ---- *)
+
+(* maxn is the least integer >= min_terms, term_factor * alpha, term_factor * beta *)
+Theorem sdh_maxn_characterised : forall f r vL vT mt tf,
+  ((mt <= sdh_maxn NumR f r vL vT mt tf)%Z /\
+   IZR tf * sdh_alpha NumR f r vL <= IZR (sdh_maxn NumR f r vL vT mt tf) /\
+   IZR tf * sdh_beta NumR f r vT <= IZR (sdh_maxn NumR f r vL vT mt tf)) /\
+  (forall m, (mt <= m)%Z -> IZR tf * sdh_alpha NumR f r vL <= IZR m -> IZR tf * sdh_beta NumR f r vT <= IZR m ->
+     (sdh_maxn NumR f r vL vT mt tf <= m)%Z).
+Proof. intros f r vL vT mt tf. split; [apply sdh_maxn_bounds | apply sdh_maxn_least]. Qed.
+
+Theorem sdh_maxn_monotone : forall f r vL vT mt tf f' r' mt',
+  (0 <= tf)%Z -> 0 < vL -> 0 < vT -> 0 <= f <= f' -> 0 <= r <= r' -> (mt <= mt')%Z ->
+  (sdh_maxn NumR f r vL vT mt tf <= sdh_maxn NumR f' r' vL vT mt' tf)%Z.
+Proof. exact ScatGlueProofs.sdh_maxn_monotone. Qed.
+
+Theorem sdh_maxn_transverse_decides : forall f r vL vT mt tf,
+  (0 <= tf)%Z -> 0 < vT <= vL -> 0 <= f -> 0 <= r ->
+  sdh_maxn NumR f r vL vT mt tf = Z.max mt (Zceil (IZR tf * sdh_beta NumR f r vT)).
+Proof. exact sdh_maxn_beta_decides. Qed.
+
+(* no IndexError on the modal range: min_terms >= 0, or non-negative physical parameters *)
+Theorem sdh_modal_range_not_empty : forall f r vL vT mt tf,
+  (0 <= mt)%Z \/ ((0 <= tf)%Z /\ 0 < vL /\ 0 <= f /\ 0 <= r) -> (0 <= sdh_maxn NumR f r vL vT mt tf)%Z.
+Proof. exact sdh_maxn_nonneg. Qed.
+
+(* ---- non-vacuity of the new statements --------------------------------------------------------- *)
+
+(* a row of incident angles against a column of scattered angles: the call succeeds for arbitrary
+   Hankel values and returns arrays of shape (3, 2) *)
+Example sdh_array_call_example : forall hankel1 hankel2,
+  exists D arr,
+    sdh_2d_scat_nd NumR hankel1 hankel2 (nd_vector 0 [0; 1]) (mkNd [3; 1]%nat (fun _ => 0)) 1 1 1 1 10 4 scat_keys = inr D /\
+    lookup "LL" D = Some arr /\ nd_shape arr = [3; 2]%nat.
+Proof.
+  intros h1 h2.
+  pose proof (sdh_nd_outcome NumR h1 h2 (nd_vector 0 [0; 1]) (mkNd [3; 1]%nat (fun _ => 0)) 1 1 1 1 10 4 scat_keys) as Ho.
+  destruct (sdh_2d_scat_nd NumR h1 h2 (nd_vector 0 [0; 1]) (mkNd [3; 1]%nat (fun _ => 0)) 1 1 1 1 10 4 scat_keys)
+    as [[]|D] eqn:E; try contradiction.
+  - discriminate Ho.
+  - destruct Ho as (_ & Hv). discriminate Hv.
+  - destruct Ho as (_ & _ & Hm). assert (H10 : (0 <= 10)%Z) by lia. pose proof (sdh_maxn_nonneg 1 1 1 1 10 4 (or_introl H10)). lia.
+  - destruct Ho as (_ & _ & _ & Hk). destruct (lookup "LL" D) as [arr|] eqn:El.
+    + exists D, arr. split; [reflexivity|]. split; [exact El|].
+      destruct (sdh_nd_entry NumR h1 h2 _ _ _ _ _ _ _ _ _ _ _ _ E El) as [Hs _].
+      cbn in Hs. injection Hs as <-. reflexivity.
+    + exfalso. apply (proj2 (Hk "LL"%string)); [split; reflexivity | exact El].
+Qed.
+
+(* a history without failed matrix request; and the matrix request of the crack succeeds *)
+Example clean_history_example : forall K : R -> crack_kernels (T:=R),
+  clean_history NumR K false
+    [OpCall (nd_scalar 0) (nd_scalar 1) 1 scat_keys; OpSingle 1 3%nat ["LL"; "TT"]%string;
+     OpMulti [1; 2] 2%nat scat_keys; OpCall (nd_scalar 0) (nd_scalar 1) 1 ["XX"]%string].
+Proof. intros K. cbn. repeat split. Qed.
+
+(* the hypotheses of crack_mirror_symmetry are satisfiable: two nodes, the mesh of crack_2d_scat, the
+   2x2 Galerkin matrix [[2,1],[1,2]] and its exact solver *)
+Example crack_mirror_hypotheses_example :
+  exists (p : crack_params (T:=R)) (ax az : Z -> R * R),
+    exact_solve NumR (cp_nn p) (galerkin_matrix (Z.of_nat (cp_nn p)) ax) (cp_solve_x p) /\
+    exact_solve NumR (cp_nn p) (galerkin_matrix (Z.of_nat (cp_nn p)) az) (cp_solve_z p) /\
+    (forall m : Z, cp_x p (Z.of_nat (cp_nn p) - 1 - m)%Z = - cp_x p m) /\ cp_vL p <> 0 /\ cp_vT p <> 0.
+Proof.
+  set (a := fun k : Z => if (k =? 0)%Z then (2, 0) else (1, 0)).
+  set (solve := fun (b : Z -> R * R) (i : Z) =>
+    if (i =? 0)%Z then rscale NumR (/ 3) (csub NumR (rscale NumR 2 (b 0%Z)) (b 1%Z))
+    else rscale NumR (/ 3) (csub NumR (rscale NumR 2 (b 1%Z)) (b 0%Z))).
+  exists (mkCrack 2 1 1 1 2%nat (crack_h_nodes NumR 1 2) (crack_x_nodes NumR 1 2) solve solve), a, a.
+  cbn [cp_nn cp_solve_x cp_solve_z cp_x cp_vL cp_vT].
+  split; [exact exact_solve_example|]. split; [exact exact_solve_example|]. split; [|split; lra].
+  intros m. change (Z.of_nat 2) with 2%Z. apply crack_x_nodes_symmetric.
+  unfold magic_p. cbn [ndiv nofZ NumR]. lra.
+Qed.
+
+(* with the default min_terms = 10 and a vanishing ka the sum has the documented minimum of terms *)
+Example sdh_maxn_example : sdh_maxn NumR 0 1 1 1 10 4 = 10%Z.
+Proof.
+  rewrite sdh_maxn_R. unfold sdh_alpha, sdh_beta, sdh_kl, sdh_kt, two_pi. cbn [nmul ndiv nofZ npi NumR].
+  replace (4 * (2 * PI * 0 / 1 * 1)) with (IZR 0) by (field). rewrite Zceil_IZR. reflexivity.
+Qed.
+
+(* entries of the key structure decided by computation: a crack asked for LT alone also fills LL (same
+   incident mode) and leaves TL, TT zero; index plumbing of a vector against a scalar *)
+Example crack_array_example :
+  crack_use "LL" ["LT"]%string = true /\ crack_use "TL" ["LT"]%string = false /\
+  bshape [3; 1]%nat [2]%nat = Some [3; 2]%nat /\ bshape [3]%nat [2]%nat = None /\
+  bidx [3; 1]%nat [2; 1]%nat = [2; 0]%nat /\ bidx [2]%nat [2; 1]%nat = [1]%nat /\ bidx [] [2; 1]%nat = [] /\
+  row0 [2; 1]%nat = [0; 1]%nat /\ pad2 [4]%nat = [0; 4]%nat.
+Proof. repeat split. Qed.
